@@ -54,6 +54,8 @@ pub fn start_job(command: Arc<Command>) -> (Job, JoinHandle<()>) {
 				select! {
 					result = command_state.wait(), if command_state.is_running() => {
 						trace!(?result, ?command_state, "got wait result");
+						#[cfg(watchexec_verif)]
+						crate::verif::emit("waited", usize::from(matches!(result, Ok(true))), 0);
 						match async {
 							#[cfg(test)] eprintln!("[{:?}] waited: {result:?}", Instant::now());
 
@@ -115,6 +117,8 @@ pub fn start_job(command: Arc<Command>) -> (Job, JoinHandle<()>) {
 						}
 					}
 					Some(ControlMessage { control, done }) = receiver.recv(&mut stop_timer) => {
+						#[cfg(watchexec_verif)]
+						crate::verif::emit("deq", control.verif_kind(), done.verif_id());
 						match async {
 							trace!(?control, ?command_state, "got control message");
 							#[cfg(test)] eprintln!("[{:?}] control: {control:?}", Instant::now());
@@ -356,6 +360,8 @@ pub fn start_job(command: Arc<Command>) -> (Job, JoinHandle<()>) {
 			}
 
 			trace!("raising job done flag");
+			#[cfg(watchexec_verif)]
+			crate::verif::emit("loop_exit", 0, 0);
 			done.raise();
 		}),
 	)
